@@ -446,7 +446,12 @@ bufferevent_socket_connect(struct bufferevent *bev,
 		/* The connect succeeded already. How very BSD of it. */
 		result = 0;
 		bufev_p->connecting = 1;
-		bufferevent_trigger_nolock_(bev, EV_WRITE, BEV_OPT_DEFER_CALLBACKS);
+		/* Run our own write handler from the loop: it notices that
+		 * the connect has finished and reports BEV_EVENT_CONNECTED.
+		 * (Triggering the user's write callback here ran it before
+		 * CONNECTED, and with EV_WRITE disabled nothing ever reported
+		 * the connection.) */
+		event_active(&bev->ev_write, EV_WRITE, 1);
 	} else {
 		/* The connect failed already (only ECONNREFUSED case). How very BSD of it. */
 		result = 0;
